@@ -13,7 +13,7 @@
 (* subtraction is the selected branch), the canonical result z = c * R^-1, and   *)
 (* operand pairs with x random and  y = z / x,  z - x,  x - z;  and the square   *)
 (* roots of z when z is a square.  One JSON object per pair -> IOEnv.PLAN_OUT.   *)
-EXTENDS ModArith, BN, RealParams, Json, IOUtils, SequencesExt
+EXTENDS ModArith, BN, RealParams, Json, IOUtils, SequencesExt, Bitwise
 BNIdent(b) == b
 BNToBytes(n, len) == BNPad(BNStripTo(n, 1), len)
 Seeds == ndJsonDeserialize(IOEnv.PLAN_SEEDS)
@@ -63,7 +63,39 @@ Recs(f) ==
                [k |-> "fin", field |-> f, op |-> "add", a |-> x, b |-> MSub(m, z, x), tag |-> tag],
                [k |-> "fin", field |-> f, op |-> "sub", a |-> x, b |-> MSub(m, x, z), tag |-> tag],
                [k |-> "fin", field |-> f, op |-> "div", a |-> z, b |-> MInv(m, x), tag |-> tag] >>])
-Plan == FlattenSeq([fi \in 1..3 |-> Recs(FieldsSeq[fi])])
+\* Pairs for equality / comparison / selection, chosen BY THE DIFFERENCE OF THE TWO MONTGOMERY RESIDUES: an
+\* equality that folds limb differences into one word (xor / or / add), or a comparison that walks the limbs,
+\* is wrong only for pairs whose residues differ in one limb, by the SAME mask in two limbs or in all limbs,
+\* or by a swap of two limbs (2^-64 under uniform sampling).  c is a seed-derived residue with a zero top
+\* byte (so every variant stays below the modulus), c' its variant; the operands are c R^-1 and c' R^-1.
+XorBytes(a, b) == [k \in 1..Len(a) |-> a[k] ^^ b[k]]
+MaskAt(f, w, S, mk) == LET wb == w \div 8 IN [k \in 1..BL(f) |-> IF ((k - 1) \div wb) \in S THEN mk[((k - 1) % wb) + 1] ELSE 0]
+EqMasks(w, seed) == LET wb == w \div 8 IN
+  << [k \in 1..wb |-> IF k = 1 THEN 1 ELSE 0], [k \in 1..wb |-> IF k = wb - 1 THEN 128 ELSE 0],
+     [k \in 1..wb |-> IF k = wb THEN 0 ELSE IF seed[k] = 0 THEN 1 ELSE seed[k]], [k \in 1..wb |-> IF k = wb THEN 0 ELSE 255] >>
+SwapLimbs(c, w, i, j) == LET wb == w \div 8 IN
+  [k \in 1..Len(c) |-> LET li == (k - 1) \div wb IN
+      IF li = i THEN c[k + wb * (j - i)] ELSE IF li = j THEN c[k - wb * (j - i)] ELSE c[k]]
+EqBase(f, j) == LET sd == Seeds[((j * 3 + 1) % Len(Seeds)) + 1].b \o Seeds[((j * 5 + 2) % Len(Seeds)) + 1].b IN
+  [k \in 1..BL(f) |-> IF k = BL(f) THEN 0 ELSE sd[k]]
+EqVariants(f) ==
+  FlattenSeq([wi \in 1..2 |->
+    LET w == IF wi = 1 THEN 32 ELSE 64
+        nl == (8 * BL(f)) \div w
+        sets == [i \in 1..nl |-> {i - 1}] \o FlattenSeq([i \in 1..nl |-> [j \in 1..(nl - i) |-> {i - 1, i - 1 + j}]]) \o << 0..(nl - 1) >>
+        prs == FlattenSeq([i \in 1..nl |-> [j \in 1..(nl - i) |-> <<i - 1, i - 1 + j>>]])
+    IN FlattenSeq([si \in 1..Len(sets) |->
+         LET c == EqBase(f, si + wi) ms == EqMasks(w, Seeds[((si * 7) % Len(Seeds)) + 1].b) IN
+         [mi \in 1..4 |-> [c |-> c, d |-> XorBytes(c, MaskAt(f, w, sets[si], ms[mi])), w |-> w, how |-> "xor"]]])
+       \o [pi \in 1..Len(prs) |-> LET c == EqBase(f, pi + 40 + wi) IN
+             [c |-> c, d |-> SwapLimbs(c, w, prs[pi][1], prs[pi][2]), w |-> w, how |-> "swap"]]])
+EqRecs(f) ==
+  LET m == Mod(f) vs == EqVariants(f) ri == RInv(f) IN
+  FlattenSeq([j \in 1..Len(vs) |->
+    IF vs[j].c = vs[j].d \/ ~NLess(vs[j].d, m) THEN <<>>
+    ELSE << [k |-> "fin", field |-> f, op |-> "eq", a |-> MMul(m, NMod(vs[j].c, m), ri), b |-> MMul(m, NMod(vs[j].d, m), ri),
+             tag |-> [field |-> f, w |-> vs[j].w, how |-> vs[j].how]] >>])
+Plan == FlattenSeq([fi \in 1..3 |-> Recs(FieldsSeq[fi]) \o EqRecs(FieldsSeq[fi])])
 ASSUME TLCSet(51, Plan)
 ASSUME ndJsonSerialize(IOEnv.PLAN_OUT, TLCGet(51))
 ASSUME PrintT(<<"PLAN-WRITTEN", Len(TLCGet(51))>>)
